@@ -137,3 +137,24 @@ Theorem C09_bytes_to_blocks_starts_from_that_state : forall {C} (keq : C -> C ->
     end.
 Proof. intros. apply SrcDecPrologueTie.bytes_to_blocks_starts_from_dec_init. Qed.
 Print Assumptions C09_bytes_to_blocks_starts_from_that_state.
+
+(* ... and ends with: the entries of each table that no instruction referred to (ToArgs.additional_args, tied above), wrapped as
+   Name / Varname / Cellvar / Constant operands and concatenated in that order - re-translated on every run *)
+Theorem C09_unreferenced_entries_are_collected_as_the_source_does : forall {C} (keq : C -> C -> bool) (st2 : decstate C),
+  PCD.Gen.SrcIter.additional_of keq st2 =
+  match additional_args str_eqb (d_names st2) with
+  | Err e => Err e
+  | OK an =>
+  match additional_args str_eqb (d_varnames st2) with
+  | Err e => Err e
+  | OK av =>
+  match additional_args str_eqb (d_cellvars st2) with
+  | Err e => Err e
+  | OK ac =>
+  match additional_args keq (d_consts st2) with
+  | Err e => Err e
+  | OK ak => OK (arg_of_additional AName an ++ arg_of_additional AVarname av
+                 ++ arg_of_additional ACellvar ac ++ arg_of_additional AConst ak)
+  end end end end.
+Proof. intros. apply SrcDecPrologueTie.additional_of_tie. Qed.
+Print Assumptions C09_unreferenced_entries_are_collected_as_the_source_does.
